@@ -28,7 +28,9 @@ RULE = ("part 1 exhaustive over scenarios = (services in the configuration, Comp
         "tunnel/unified configurations all connecting (both TXT variants) and with every single failing connect, five real "
         "devices as pyatv's own scanner sees them x every set of their protocols left enabled, plus seeded random ones; the device object comes from the real pyatv.connect() and a connected protocol takes over through the "
         "core.takeover wired there; x {no holder, each of 5 holders} x every member with default-style arguments and with "
-        "every other value of its enum-typed / optional parameters (from the signatures); then again after each connected "
+        "every other value of its enum-typed / optional parameters, strings of several shapes (http/https/file URL, path, "
+        "identifier, empty) for string parameters and an extra keyword for **kwargs (from the signatures) — any recorder "
+        "firing other than the winner's same-named member is a misroute; then again after each connected "
         "protocol published volume/output devices/focus/play state with exactly the published values as arguments (twice, "
         "and under a takeover), and again while the implementations of one connected protocol raise NotSupportedError / "
         "ProtocolError when called (the error must reach the caller, nobody else may execute the call); Companion's REAL "
@@ -58,6 +60,9 @@ NINE = ["RemoteControl", "Metadata", "Power", "Audio", "Apps", "UserAccounts", "
 FACADE_ATTR = {"RemoteControl": "remote_control", "Metadata": "metadata", "Power": "power", "Audio": "audio",
                "Apps": "apps", "UserAccounts": "user_accounts", "Keyboard": "keyboard", "TouchGestures": "touch",
                "Stream": "stream", "PushUpdater": "push_updater", "Features": "features"}
+
+
+STRING_SHAPES = ["http://example.com/a.mp3", "https://example.com/a.mp3", "file:///tmp/a.mp3", "/tmp/a.mp3", "com.apple.TVMusic", ""]
 
 
 def subsets():
@@ -423,7 +428,9 @@ class World:
     def variants(self, iface, name):
         """Argument variants of a member, one parameter changed at a time, taken from the
         signature in pyatv.interface: every other value of an enum-typed parameter, a flipped
-        bool, a value for a parameter defaulting to None, another number.  [(label, kwargs)]"""
+        bool, a value for a parameter defaulting to None, another number, strings of several shapes
+        (URL schemes, path, identifier, empty) for a string parameter, an extra keyword for **kwargs.
+        [(label, kwargs)]"""
         import dataclasses
         import enum
         import typing
@@ -439,7 +446,10 @@ class World:
                              if p.kind not in (p.VAR_POSITIONAL, p.VAR_KEYWORD) and p.default is p.empty],
                             self._args(iface, name, plain=True)))
             for prm in list(inspect.signature(fn).parameters.values())[1:]:
-                if prm.kind in (prm.VAR_POSITIONAL, prm.VAR_KEYWORD, prm.POSITIONAL_ONLY):
+                if prm.kind == prm.VAR_KEYWORD:
+                    out.append(("**%s=position" % prm.name, {"position": 0}))     # an extra keyword argument
+                    continue
+                if prm.kind == prm.VAR_POSITIONAL or (prm.kind == prm.POSITIONAL_ONLY and prm.default is not prm.empty):
                     continue
                 ann, dflt = prm.annotation, prm.default
                 cands = [a for a in typing.get_args(ann) if a is not type(None)] if typing.get_origin(ann) is typing.Union else [ann]
@@ -449,6 +459,9 @@ class World:
                     values = [v for v in (type(dflt) if isinstance(dflt, enum.Enum) else ann) if v != cur]
                 elif isinstance(dflt, bool):
                     values = [not dflt]
+                elif dflt is prm.empty and (ann is str or str in cands):
+                    # strings whose shape may select a code path: URL schemes, absolute path, empty
+                    values = [v for v in STRING_SHAPES if v != cur]
                 elif dflt is None:
                     c = cands[0] if cands and isinstance(cands[0], type) else None
                     if c is not None and dataclasses.is_dataclass(c):
